@@ -47,6 +47,10 @@ MUTATIONS = [
     ("dask_expr/_shuffle.py", "            for i, key in enumerate(df.__dask_keys__())\n        }\n\n        # Barrier", "            for i, key in enumerate(df.__dask_keys__()[:-1])\n        }\n\n        # Barrier", "vf.contracts.layers:DiskShuffleLayer", "post:every-input-partition-is-written"),
     ("dask_expr/io/io.py", "        return (methods.concat, [expr._filtered_task(i) for i in bucket])", "        return (methods.concat, [expr._filtered_task(i) for i in bucket[1:]])", "vf.contracts.partitions:FusedTask", "post:reads-exactly-its-bucket-in-order"),
     ("dask_expr/io/io.py", "        bucket = self._fusion_buckets[index]\n        return (methods.concat,", "        bucket = self._fusion_buckets[index - 1]\n        return (methods.concat,", "vf.contracts.partitions:FusedTask", "post:reads-exactly-its-bucket-in-order"),
+    ("dask_expr/_reductions.py", "                new_keys.append((self._name, j, i))", "                new_keys.append((self._name, j, i + 1))", "vf.contracts.layers:TreeReduceLayer", "inv-preserved:loop1:acc0"),
+    ("dask_expr/_reductions.py", "            j += 1\n            keys = new_keys", "            keys = new_keys", "vf.contracts.layers:TreeReduceLayer", "inv-preserved:loop0"),
+    ("dask_expr/_reductions.py", "        d[self._name, 0] = (apply, self.aggregate, [keys], self.aggregate_kwargs)", "        d[self._name, 0] = (apply, self.aggregate, [keys[:-1]], self.aggregate_kwargs)", "vf.contracts.layers:TreeReduceLayer", "post:final-aggregates-the-last-level"),
+    ("dask_expr/_reductions.py", "                    d[self._name, j, i] = (self.combine, batch)", "                    d[self._name, j, i] = (self.combine, batch[1:])", "vf.contracts.layers:TreeReduceLayer", "post:each-batch-combines-consecutive-keys-of-the-previous-level"),
     ("dask_expr/_repartition.py", "        nsplits[-1] += mod\n", "        nsplits[0] += mod\n", "vf.contracts.layers:MoreNSplits", "post:"),
     ("dask_expr/_repartition.py", "        return (None,) * (1 + sum(self._nsplits))", "        return (None,) * (1 + len(self._nsplits))", "vf.contracts.layers:MoreDivisions", "post:length-new+1"),
     ("dask_expr/io/io.py", "        for part, k in enumerate(self.operand(\"keys\")):\n            dsk[(self._name, part)] = k", "        for part, k in enumerate(sorted(self.operand(\"keys\"))):\n            dsk[(self._name, part)] = k", "vf.contracts.layers:FromGraphLayer", "HARMLESS-OR-UNDECIDED"),
